@@ -211,7 +211,7 @@ package rfc8628
 //@   invariant loop#1 [C16.device-auth-stores] i >= 0 && (i > 0 ==> err != nil && faults == old(faults) && dev_live == old(dev_live)) && (i == 0 ==> faults == old(faults) && dev_live == old(dev_live)) && deviceCodeSignature == devsig(d.Strategy, deviceCode)
 
 // ---------------------------------------------------------------- history lemmas (ghost driver in verif_history.go)
-// The same invariants as in package oauth2 (dead, rid_unique, deadrid are defined there), proved stable under the device-flow
+// The same invariants as in package oauth2 (dead, ids_distinct, deadrid are defined there), proved stable under the device-flow
 // operations: together the two drivers cover every operation that changes the token, code and device tables.
 //@ interface verifEnv.Request
 //@   ensures result != nil && !stored[result] && !shared[result] && !shared[result.GetSession()] && result.GetClient() != nil && result.GetSession() != nil
@@ -227,8 +227,9 @@ package rfc8628
 //@   let rid0 = grant_id(env)
 //@   requires env != nil && poll != nil && auth != nil
 //@   modifies everything
-//@   invariant loop#1 [C01.dead-grant-stays-dead] old(dead(sig0) && rid_unique(sig0)) ==> dead(sig0) && rid_unique(sig0)
+//@   invariant loop#1 [C01.dead-grant-stays-dead] old(dead(sig0) && ids_distinct()) ==> dead(sig0) && ids_distinct()
 //@   invariant loop#1 [C02.stored-grant-immutable] old(code_exists[sig0]) ==> code_exists[sig0] && code_rid[sig0] == old(code_rid[sig0]) && code_client[sig0] == old(code_client[sig0]) && code_req[sig0] == old(code_req[sig0])
+//@   invariant loop#1 [C01.request-ids-distinguish-grants] old(ids_distinct()) ==> ids_distinct()
 //@   invariant loop#1 [C01.used-code-stays-used] old(code_exists[sig0] && !code_active[sig0]) ==> code_exists[sig0] && !code_active[sig0]
 //@   invariant loop#1 [C04.dead-family-stays-dead] old(deadrid(rid0)) ==> deadrid(rid0)
 //@   invariant loop#1 [C08.revoked-grant-stays-revoked] old(deadrid(rid0)) ==> deadrid(rid0)
